@@ -204,6 +204,16 @@ impl InputList {
         Ok(Self { events })
     }
 
+    /// True if an element starts after the event with (document) index `end`
+    pub fn has_element_after(&self, end: usize) -> bool {
+        for ev in &self.events {
+            if ev.index > end && matches!(ev.event, Event::Start(_) | Event::Empty(_)) {
+                return true;
+            }
+        }
+        false
+    }
+
     pub fn slice(&self, start: usize, end: usize) -> Self {
         Self {
             events: self.events[start..end].to_vec(),
